@@ -1,4 +1,5 @@
 import GrolProofs.PrintFrame
+import Grol.LitFact
 /-
 C03 (3), second half: the byte before the final newline of a normal-mode program text is not a newline,
 given the lexer fact that the literals of the tokens printed last by a node are non-empty and do not end
@@ -7,27 +8,22 @@ in a newline (`endOK`).  Together with `printProgram_ends_with_newline`: exactly
 namespace Grol.Printer
 open Grol.Generated Grol.Wire
 
-/-- a token literal that is non-empty and does not end in a newline (what the lexer produces for
-identifiers, numbers, keywords, operators and comments) -/
-def litOK (t : Tk) : Bool := !t.lit.isEmpty && t.lit.getLast? != some 10
-
 mutual
-/-- every token that some node prints LAST satisfies `litOK` -/
+/-- the token literals a node prints LAST (along its right-most spine) satisfy `litOK`; nodes that end with a
+closing delimiter or a quoted string need nothing -/
 def endOK : Node → Bool
   | .ident t | .intLit t | .floatLit t | .boolean t | .control t | .comment t _ _ | .post t _ => litOK t
   | .strLit _ => true
-  | .ret t v => litOK t && endOKO v
+  | .ret t v => match v with
+    | none => litOK t
+    | some v => endOK v
   | .pre _ r => endOKO r
-  | .infix t l r => litOK t && endOKO l && endOKO r
-  | .forE _ c b => endOKO c && endOKS b
-  | .ifE _ c a b => endOKO c && endOKS a && endOKS b
-  | .builtin _ ps => endOKL ps
-  | .func _ _ ps b _ _ => endOKL ps && endOKS b
-  | .call _ f as => endOKO f && endOKL as
-  | .array _ es => endOKL es
-  | .index _ l i => endOKO l && endOKO i
-  | .mapLit _ kvs => endOKL kvs
-  | .macroLit _ ps b => endOKL ps && endOKS b
+  | .infix t _ r => match r with
+    | none => litOK t
+    | some r => endOK r
+  | .ifE _ _ _ b => endOKS b          -- `else if`: the nested `if` is printed last
+  | .index _ _ i => endOKO i          -- `a.b`
+  | .forE .. | .builtin .. | .func .. | .call .. | .array .. | .mapLit .. | .macroLit .. => true
 def endOKO : Option Node → Bool
   | none => true
   | some n => endOK n
@@ -113,10 +109,10 @@ theorem printNode_P (tbl : Nat → Bool) : ∀ (n : Node) (ps ps' : PrintState),
     unfold printNode at h; cases h; exact P_print_lit _ _ (by simpa [endOK] using he)
   | .strLit t, ps, ps', h, _, _ => by unfold printNode at h; cases h; exact quote_P _ _ _
   | .ret t none, ps, ps', h, he, _ => by
-    unfold printNode at h; cases h; exact P_print_lit _ _ (by simp [endOK] at he; exact he.1)
+    unfold printNode at h; cases h; exact P_print_lit _ _ (by simpa [endOK] using he)
   | .ret t (some v), ps, ps', h, he, hl => by
     unfold printNode at h
-    exact printNode_P tbl v _ _ h (by simp [endOK, endOKO] at he; exact he.2) (by simpa using hl)
+    exact printNode_P tbl v _ _ h (by simpa [endOK] using he) (by simpa using hl)
   | .pre _ r, ps, ps', h, he, hl => by
     unfold printNode at h; dsimp only at h
     split at h
@@ -144,7 +140,7 @@ theorem printNode_P (tbl : Nat → Bool) : ∀ (n : Node) (ps ps' : PrintState),
       · cases h
         rw [P_with]
         simp only [Option.isSome_none, Bool.and_false, Bool.false_eq_true, if_false, Option.isNone_none, Bool.or_true, if_true]
-        exact P_print_lit _ _ (by simp [endOK] at he; exact he.1.1)
+        exact P_print_lit _ _ (by simpa [endOK] using he)
   | .infix t l (some r), ps, ps', h, he, hl => by
     unfold printNode at h
     split at h
@@ -159,7 +155,7 @@ theorem printNode_P (tbl : Nat → Bool) : ∀ (n : Node) (ps ps' : PrintState),
         split at h
         · cases h
         · next _ heq3 =>
-          have p := printNode_P tbl r _ _ heq3 (by simp [endOK, endOKO] at he; exact he.2)
+          have p := printNode_P tbl r _ _ heq3 (by simpa [endOK] using he)
             (by (repeat' split) <;> lvl)
           cases h
           rw [P_with]
@@ -200,7 +196,7 @@ theorem printNode_P (tbl : Nat → Bool) : ∀ (n : Node) (ps ps' : PrintState),
         generalize (if psA.compact = true then psA.print [101, 108, 115, 101] else psA.print [32, 101, 108, 115, 101, 32]) = pse at h pe hlv
         split at h
         · cases h
-        · refine printHead_P tbl _ l _ _ h (by simp [endOK, endOKS] at he; exact he.2) ?_ ?_
+        · refine printHead_P tbl _ l _ _ h (by simpa [endOK, endOKS] using he) ?_ ?_
           · split <;> simpa using hlv
           · split
             · exact P_print1 _ 32 (by decide)
@@ -257,7 +253,7 @@ theorem printNode_P (tbl : Nat → Bool) : ∀ (n : Node) (ps ps' : PrintState),
         split at h
         · cases h
         · next psI heq3 =>
-          have p := printO_P tbl i _ _ heq3 (by simp [endOK] at he; exact he.2) (by (repeat' split) <;> lvl)
+          have p := printO_P tbl i _ _ heq3 (by simpa [endOK] using he) (by (repeat' split) <;> lvl)
           cases h
           rw [P_with]
           apply P_ite_paren
